@@ -2311,7 +2311,7 @@ var verdictNames = map[int]string{0: "accept", 1: "reject:lookback_consensus", 2
 func runGen(seed uint64, n int, outDir, corpusDir, variant string) {
 	r := vf.NewRng(seed)
 	res := vf.NewResult("C01", seed)
-	g := &gen{r: r, variant: variant}
+	g := &gen{r: r, variant: variant, bigNo: int(seed % 7)}
 	var sb strings.Builder
 	sb.WriteString("From VF.C01 Require Import Model ModelH.\nLocal Open Scope N_scope.\nDefinition cases : list tcase := [\n")
 	distinct := map[string]bool{}
